@@ -444,7 +444,8 @@ func checkC13(c *Ctx) {
 	})
 	allSites := []string{"print", "printlist", "assign", "addassign", "concatl", "concatr", "eqdoc", "neqdoc", "not", "cond", "whilecond", "arg", "ret", "elem", "objval",
 		"recv", "recvsplit", "methodarg", "printfarg", "printffmt", "forin", "subset", "subget", "subgetdoc", "subsetget", "subnested", "subincr", "subaddassign",
-		"subdocassign", "subdelete", "matchsubj", "matchpat", "matcharr", "matchres", "tildesubj", "grouped", "andor"}
+		"subdocassign", "subdelete", "matchsubj", "matchpat", "matcharr", "matchres", "tildesubj", "grouped", "andor",
+		"objkey", "objkeyget", "objkeyin", "objkeytwo"}
 	// alphabet 2 (byte strings): the sites that hand the denoted bytes on unchanged; those that count or split
 	// characters (recv: length, forin: characters) and the regex site (a regex must be UTF-8) are left out
 	var byteSites []string
